@@ -14,13 +14,14 @@ META = {
                   "sender (any loss/dup/reorder of its earlier packets) and runs without u32 wrap; rings pre-filled "
                   "with junk of another pattern are covered by the monitors on the real code only; 'stream intact' "
                   "with different data counts rests on the ARQ core's conv/cmd/len filter (probabilistic in the code "
-                  "itself) and is stated as c16_stream_intact_partial",
+                  "itself) and is stated as c16_stream_intact_partial; with EQUAL data counts parity row i is the same "
+                  "code for every parity count (c16_parity_rows_indep_all, proved for all d+p <= 256)",
 }
 
 FILES = ["fec_test.go"]
 OBLIGATIONS = ["c16_stable", "c16_genuine_is_matching", "c16_findperiod_sound", "c16_mismatch_detected",
                "c16_ring_holds_last_samples", "c16_findperiod_complete", "c16_converges", "c16_tuning_steps",
-               "c16_stream_intact_partial", "c16_parity_rows_indep"]
+               "c16_stream_intact_partial", "c16_parity_rows_indep_all", "c16_parity_rows_indep"]
 PARTIAL = ["c16_stream_intact_partial"]
 
 
